@@ -9,5 +9,5 @@ CONSTRAINT Bound
 CONSTRAINT Mark
 POSTCONDITION AllActionsTaken
 INVARIANTS TypeOK RootFinishesOnce DocumentedResult ChildStartOrder NoRestartWhileUnderway NothingLeftRunning
-  NoStaleNotification FinalOncePerRun ResetIsFresh PauseHoldsResults
+  NoStaleNotification FinalOncePerRun ResetIsFresh PauseHoldsResults AtMostOnePending
 CHECK_DEADLOCK FALSE
